@@ -193,10 +193,11 @@ func nilName(v reflect.Value) string {
 
 // Lit is one token of the source whose bytes the printed text must contain.
 type Lit struct {
-	Kind string // string | template | regexp | numeric | comment | shebang
-	Text []byte
-	Off  int
-	Expr bool // a literal in expression position (all comments count)
+	Kind   string // string | template | regexp | numeric | comment | shebang
+	Text   []byte
+	Off    int
+	Expr   bool // a literal in expression position (all comments count)
+	InTree bool // the first tree holds it in an expression slot
 }
 
 func offsetIn(base []byte, d []byte) int {
@@ -212,7 +213,7 @@ func offsetIn(base []byte, d []byte) int {
 
 // treeLiterals returns the offsets (in the parsed buffer) of the regular expression literals and of all literal data in
 // expression position found in the tree: LiteralExpr nodes held in an expression slot, and the parts of TemplateExpr nodes.
-func treeLiterals(ast *js.AST, base []byte) (regexps map[int]bool, exprs map[int]bool, comments map[string]bool) {
+func treeLiterals(ast *js.AST, base []byte) (regexps map[int]bool, exprs map[int]bool, comments map[string]bool, held [][2]int) {
 	regexps, exprs, comments = map[int]bool{}, map[int]bool{}, map[string]bool{}
 	var walk func(v reflect.Value, viaIface bool, depth int)
 	walk = func(v reflect.Value, viaIface bool, depth int) {
@@ -241,6 +242,8 @@ func treeLiterals(ast *js.AST, base []byte) (regexps map[int]bool, exprs map[int
 					}
 					if viaIface {
 						exprs[o] = true
+					} else {
+						held = append(held, [2]int{o, len(l.Data)})
 					}
 				}
 				return
@@ -269,6 +272,10 @@ func treeLiterals(ast *js.AST, base []byte) (regexps map[int]bool, exprs map[int
 			}
 		case reflect.Slice:
 			if v.Type().Elem().Kind() == reflect.Uint8 {
+				// text the tree holds in a slot that is not an expression (module specifier, alias, directive, label ...)
+				if o := offsetIn(base, v.Bytes()); o >= 0 {
+					held = append(held, [2]int{o, v.Len()})
+				}
 				return
 			}
 			for i := 0; i < v.Len(); i++ {
@@ -295,7 +302,18 @@ func lineEnd(src []byte) int {
 // sourceLiterals lexes the source with js.Lexer. Where the tree says a regular expression literal starts, the lexer is
 // switched to RegExp() just as the parser does. Returns the literal tokens, the number of significant tokens, and
 // whether the lexer reached the end without an error.
-func sourceLiterals(src []byte, inline bool, regexps, exprs map[int]bool) (lits []Lit, ntok int, ok bool) {
+func sourceLiterals(src []byte, inline bool, regexps, exprs map[int]bool, held [][2]int) (lits []Lit, ntok int, ok bool) {
+	// a literal token is NOT in expression position exactly when the tree holds (part of) its bytes in a slot that is
+	// not an expression: property name, module specifier, import/export alias, directive. A literal the tree does not
+	// hold at all counts as one in expression position (the parser lost it).
+	elsewhere := func(off, n int) bool {
+		for _, h := range held {
+			if off <= h[0] && h[0]+h[1] <= off+n {
+				return true
+			}
+		}
+		return false
+	}
 	start := 0
 	if !inline && len(src) >= 2 && src[0] == '#' && src[1] == '!' {
 		start = lineEnd(src)
@@ -337,7 +355,7 @@ func sourceLiterals(src []byte, inline bool, regexps, exprs map[int]bool) (lits 
 		}
 		ntok++
 		if kind != "" {
-			lits = append(lits, Lit{Kind: kind, Text: append([]byte{}, data...), Off: off, Expr: exprs[off]})
+			lits = append(lits, Lit{Kind: kind, Text: append([]byte{}, data...), Off: off, Expr: exprs[off] || !elsewhere(off, len(data)), InTree: exprs[off]})
 		}
 	}
 }
@@ -358,7 +376,11 @@ func missingLiterals(lits []Lit, text []byte) (missing []int) {
 			missing = append(missing, i)
 			continue
 		}
-		pos += k + len(l.Text)
+		if l.Expr {
+			// only the literals that are judged advance the scan: a property name may legitimately be printed in
+			// another spelling, and its bytes may then be found by accident further down
+			pos += k + len(l.Text)
+		}
 	}
 	return
 }
@@ -441,8 +463,8 @@ func RoundTrip(w *tr.Writer, src []byte, opt int, meta tr.E) Result {
 	}
 	w.Ev("Parse1", tr.E{"ok": true})
 
-	regexps, exprs, comments := treeLiterals(ast1, base1)
-	lits, ntok, lexok := sourceLiterals(src, o.Inline, regexps, exprs)
+	regexps, exprs, comments, held := treeLiterals(ast1, base1)
+	lits, ntok, lexok := sourceLiterals(src, o.Inline, regexps, exprs, held)
 	res.Tokens = ntok
 	w.Buf()[0]["ntok"] = ntok
 
@@ -466,7 +488,11 @@ func RoundTrip(w *tr.Writer, src []byte, opt int, meta tr.E) Result {
 			}
 			missing = append(missing, lits[i].Off)
 			mkinds = append(mkinds, lits[i].Kind)
-			intree = append(intree, (lits[i].Kind != "comment" && lits[i].Kind != "shebang") || comments[string(lits[i].Text)])
+			if lits[i].Kind == "comment" || lits[i].Kind == "shebang" {
+				intree = append(intree, comments[string(lits[i].Text)])
+			} else {
+				intree = append(intree, lits[i].InTree)
+			}
 		} else {
 			other = append(other, lits[i].Kind)
 		}
